@@ -45,8 +45,8 @@ type c19DS struct {
 	id        types.DataSourceID
 	exe       []byte // concrete content, length chosen by the harness
 	hash      string // sha256 hex of exe (file name on the chain and in the file cache)
-	hashFails int    // leading failures of the store query for the data source
-	dataFails int    // leading failures of the Query/Data call for the executable
+	hashFails int    // leading failures of the store query for the data source (>= maxTry: fails permanently)
+	dataFails int    // leading failures of the Query/Data call for the executable (>= maxTry: fails permanently)
 	hashCalls int
 	dataCalls int
 }
@@ -65,6 +65,7 @@ type c19Raw struct {
 
 	signCalls int
 	execCalls int
+	signUID   string // key name of the last Sign call
 	argsOK    bool // every observed Sign/Exec call carried exactly the expected arguments
 }
 
@@ -72,7 +73,7 @@ type c19Req struct {
 	id    types.RequestID
 	req   types.Request
 	found bool // false: the node answers with an empty value (no such request)
-	fails int  // leading failures of the store query for the request
+	fails int  // leading failures of the store query for the request (>= maxTry: fails permanently)
 	calls int
 	raws  []*c19Raw
 }
@@ -91,9 +92,10 @@ func c19NewEnv(maxTry int) *c19Env {
 	return &c19Env{cdc: venv.Codec(), maxTry: maxTry, validator: venv.ValAddr(1).String()}
 }
 
-// addDS registers a data source whose executable consists of n copies of a marker byte.
+// addDS registers a data source whose executable consists of n (+1 for every data source registered before, so
+// that executables, hence file names, are distinct) copies of a marker byte.
 func (e *c19Env) addDS(id types.DataSourceID, n int) *c19DS {
-	exe := make([]byte, n)
+	exe := make([]byte, n+len(e.ds))
 	for i := range exe {
 		exe[i] = byte(0x40 + int(id))
 	}
@@ -138,7 +140,7 @@ func (r *c19RPC) ABCIQuery(_ context.Context, path string, data cmtbytes.HexByte
 		for _, q := range e.reqs {
 			if bytes.Equal(data, types.RequestStoreKey(q.id)) {
 				q.calls++
-				if q.calls <= q.fails {
+				if q.calls <= q.fails || q.fails >= e.maxTry {
 					return nil, errC19RPC
 				}
 				if !q.found {
@@ -150,7 +152,7 @@ func (r *c19RPC) ABCIQuery(_ context.Context, path string, data cmtbytes.HexByte
 		for _, d := range e.ds {
 			if bytes.Equal(data, types.DataSourceStoreKey(d.id)) {
 				d.hashCalls++
-				if d.hashCalls <= d.hashFails {
+				if d.hashCalls <= d.hashFails || d.hashFails >= e.maxTry {
 					return nil, errC19RPC
 				}
 				src := types.DataSource{Owner: venv.Addr(7).String(), Name: "ds", Filename: d.hash}
@@ -163,7 +165,7 @@ func (r *c19RPC) ABCIQuery(_ context.Context, path string, data cmtbytes.HexByte
 			for _, d := range e.ds {
 				if d.hash == q.DataHash {
 					d.dataCalls++
-					if d.dataCalls <= d.dataFails {
+					if d.dataCalls <= d.dataFails || d.dataFails >= e.maxTry {
 						return nil, errC19RPC
 					}
 					return c19Answer(e.cdc.MustMarshal(&types.QueryDataResponse{Data: d.exe}))
@@ -202,6 +204,7 @@ func (k *c19Keyring) Sign(uid string, msg []byte, mode signing.SignMode) ([]byte
 		return nil, nil, errC19Sign
 	}
 	raw.signCalls++
+	raw.signUID = uid
 	ok := v.ChainID == c19ChainID && v.Validator == e.validator && v.DataSourceID == raw.ds.id &&
 		mode == signing.SignMode_SIGN_MODE_DIRECT && (k.keyName == "" || uid == k.keyName)
 	raw.argsOK = vs.And(raw.argsOK, ok)
